@@ -56,7 +56,7 @@ pub fn structure(rng: &mut Rng, kind: usize) -> Vec<Q> {
             d.push(q);
         }
     };
-    match kind % 12 {
+    match kind % 13 {
         0 => {
             for i in 0..n {
                 push(&mut d, b(i), p(0), b((i + 1) % n), None);
@@ -139,6 +139,20 @@ pub fn structure(rng: &mut Rng, kind: usize) -> Vec<Q> {
                         push(&mut d, b(cur), p(1), iri("http://ex/end"), None);
                     }
                 }
+            }
+        }
+        11 => {
+            // holders whose 'holder p friend' statement sits in TWO graphs (the friend is related twice, with the same related hash);
+            // the holders share their first degree hash and differ only through marks on their friends
+            let k = 2 + rng.below(2);
+            let g2 = if rng.chance(1, 2) { Some(iri("http://ex/g")) } else { Some(iri("http://ex/g2")) };
+            for i in 0..k {
+                push(&mut d, b(i), p(0), b(10 + i), None);
+                push(&mut d, b(i), p(0), b(10 + i), g2.clone());
+                push(&mut d, b(10 + i), p(1), lit_dt(&format!("mark{}", rng.below(50)), &format!("{XSD}string")), None);
+            }
+            if rng.chance(1, 3) {
+                push(&mut d, b(0), p(1), b(1), None);
             }
         }
         10 => {
